@@ -287,16 +287,36 @@ func bufViewCheck(fns []*ssa.Function, isField func(*ssa.FieldAddr) bool) (int, 
 	return loads, bad
 }
 
-// exampleFuncsOf lists the functions of the example package that any names.
+// exampleFuncsOf lists the functions, methods and function literals of the example package that any names.
 func exampleFuncsOf(look func(string) *ssa.Function, any string) []*ssa.Function {
 	f := look(any)
 	if f == nil || f.Pkg == nil {
 		return nil
 	}
+	seen := map[*ssa.Function]bool{}
 	var out []*ssa.Function
-	for fn := range ssautilAll(f.Pkg.Prog) {
-		if fn.Pkg == f.Pkg && fn.Blocks != nil && fn.Synthetic == "" {
-			out = append(out, fn)
+	var add func(fn *ssa.Function)
+	add = func(fn *ssa.Function) {
+		if fn == nil || seen[fn] || fn.Blocks == nil || fn.Synthetic != "" {
+			return
+		}
+		seen[fn] = true
+		out = append(out, fn)
+		for _, a := range fn.AnonFuncs {
+			add(a)
+		}
+	}
+	for _, m := range f.Pkg.Members {
+		switch t := m.(type) {
+		case *ssa.Function:
+			add(t)
+		case *ssa.Type:
+			for _, recv := range []types.Type{t.Type(), types.NewPointer(t.Type())} {
+				ms := f.Pkg.Prog.MethodSets.MethodSet(recv)
+				for i := 0; i < ms.Len(); i++ {
+					add(f.Pkg.Prog.MethodValue(ms.At(i)))
+				}
+			}
 		}
 	}
 	sort.Slice(out, func(i, j int) bool { return out[i].Pos() < out[j].Pos() })
